@@ -19,7 +19,9 @@ ZoneList == { [n |-> n, ty |-> zone[n]] : n \in DOMAIN zone }
 Src(r) == IF r \in chain THEN "chain" ELSE IF r \in ParentSide THEN "parent" ELSE "child"
 
 Case ==
-    LET pool   == TLCEval(SetToSeq(Material))   \* TLCEval: make TLC materialise the value once
+    \* (expanded NSEC records are not offered here: the guard against them sits in front of verify_nsec,
+    \* in the signature check; the driver replays them with their real RRSIG through DnssecDnsHandle)
+    LET pool   == TLCEval(SetToSeq(Material \ Expansions))   \* TLCEval: make TLC materialise the value once
         idx    == 1..Len(pool)
         R(S)   == { pool[i] : i \in S }
         small2 == TLCEval(SmallSubsets(idx, 2))
